@@ -1003,6 +1003,9 @@ func (c *evalCtx) callExpr(n *ECall) EV {
 				if _, isParam := c.tryLocalOrParam(id.Name); !isParam {
 					for _, imp := range e.W.allTypesPkgs() {
 						if imp.Name() == id.Name {
+							if sf, ok := e.W.Specs[sel.Field]; ok && imp.Scope().Lookup(sel.Field) == nil {
+								return c.applySpec(sf, n.Args)
+							}
 							if obj, ok := imp.Scope().Lookup(sel.Field).(*types.Func); ok {
 								return c.callRepo(e.W.Prog.FuncValue(obj), nil, n.Args)
 							}
